@@ -18,6 +18,9 @@ ASSUMPTIONS = ["python list model of tables/tuples (0-based tables, 1-based tupl
 IMAX = (1 << 63) - 1
 
 SETUP = ('t = tab(3, 7); td = tab(2, 1.5); ts = tab(2, "ab"); tb = tab(2, true); tt = tab(2, tab(2, 1)); tr = tab(2, tup(1, "x")); '
+         'ui = tab(0, 0); ui.concat(11); ui.concat(12); ui.concat(13); ud = tab(0, 0.5); ud.concat(0.25); ud.concat(0.75); ud.concat(1.25); '
+         'us = tab(0, ""); us.concat("x"); us.concat("y"); us.concat("z"); ut = tab(0, tab(0, 0)); ut.concat(tab(1, 1)); ut.concat(tab(1, 2)); ut.at(1).concat(3); '
+         'ur = tab(0, tup(0, "")); ur.concat(tup(1, "a")); ur.concat(tup(2, "b")); '
          'r = tup(1, "x", 2.5, true); r2 = tup(2.5, 3); s = "hello"; x = raw(3, 65); '
          'function idf(a) return undefined is begin return a; end; '
          'function g(v:table) return integer is begin v.concat(v); return v.count(); end;')
@@ -67,7 +70,9 @@ def strip_minor(s):
 class Model:
     def __init__(self):
         self.tables = {"T": (I, [7, 7, 7]), "TD": (N, [1.5, 1.5]), "TS": (S, [b"ab", b"ab"]), "TB": (B, [True, True]),
-                       "TT": (TI, [[1, 1], [1, 1]]), "TR": (RIS, [[1, b"x"], [1, b"x"]])}
+                       "TT": (TI, [[1, 1], [1, 1]]), "TR": (RIS, [[1, b"x"], [1, b"x"]]),
+                       # second variables of the same types with distinguishable elements: used as arguments of insert/concat (order matters)
+                       "UI": (I, [11, 12, 13]), "UD": (N, [0.25, 0.75, 1.25]), "US": (S, [b"x", b"y", b"z"]), "UT": (TI, [[1], [2, 3]]), "UR": (RIS, [[1, b"a"], [2, b"b"]])}
         self.tuples = {"R": (("i", "s", "n", "b"), [1, b"x", 2.5, True]), "R2": (("n", "i"), [2.5, 3])}
         self.strs = {"S": ("s", b"hello"), "X": ("x", b"AAA")}
 
@@ -110,12 +115,12 @@ def pool(ety, rnd):
 
 def table_pool(ety):
     """tables usable as argument of concat/insert: (text, items, class)"""
-    if ety == I: return [("tab(2, 8)", [8, 8], "match"), ("tab(0, 1)", [], "match"), ("tab(2, 1.5)", None, "mismatch"), ("tab(1, tab(1, 1))", None, "mismatch"), ("t", "SELF:T", "match")]
-    if ety == N: return [("tab(2, 0.5)", [0.5, 0.5], "match"), ("tab(1, 1)", None, "mismatch"), ("td", "SELF:TD", "match")]
-    if ety == S: return [('tab(2, "q")', [b"q", b"q"], "match"), ("tab(1, 1)", None, "mismatch"), ("ts", "SELF:TS", "match")]
+    if ety == I: return [("tab(2, 8)", [8, 8], "match"), ("tab(0, 1)", [], "match"), ("tab(2, 1.5)", None, "mismatch"), ("tab(1, tab(1, 1))", None, "mismatch"), ("t", "SELF:T", "match"), ("ui", "SELF:UI", "match"), ("ui", "SELF:UI", "match")]
+    if ety == N: return [("tab(2, 0.5)", [0.5, 0.5], "match"), ("tab(1, 1)", None, "mismatch"), ("td", "SELF:TD", "match"), ("ud", "SELF:UD", "match")]
+    if ety == S: return [('tab(2, "q")', [b"q", b"q"], "match"), ("tab(1, 1)", None, "mismatch"), ("ts", "SELF:TS", "match"), ("us", "SELF:US", "match")]
     if ety == B: return [("tab(1, false)", [False], "match"), ("tab(1, 1)", None, "mismatch")]
-    if ety == TI: return [("tab(1, tab(1, 3))", [[3]], "match"), ("tab(1, tab(1, 1.5))", None, "mismatch"), ("tt", "SELF:TT", "match")]
-    if ety == RIS: return [('tab(1, tup(5, "w"))', [[5, b"w"]], "match"), ('tab(1, tup("w", 5))', None, "mismatch"), ("tr", "SELF:TR", "match")]
+    if ety == TI: return [("tab(1, tab(1, 3))", [[3]], "match"), ("tab(1, tab(1, 1.5))", None, "mismatch"), ("tt", "SELF:TT", "match"), ("ut", "SELF:UT", "match")]
+    if ety == RIS: return [('tab(1, tup(5, "w"))', [[5, b"w"]], "match"), ('tab(1, tup("w", 5))', None, "mismatch"), ("tr", "SELF:TR", "match"), ("ur", "SELF:UR", "match")]
 
 
 def positions(n, rnd):
